@@ -74,6 +74,18 @@ def main(argv):
     thorough = chk.tier == "thorough"
     chk.translate(["future"])
     chk.coq("Properties_C08.v")
+    # release/acquire half: publication skeletons with the orders regenerated from future.hpp; when an order was
+    # weakened the view machine is searched for the execution in which a waiter/callback misses the value
+    defs = ("Require Import Verif.Gen.Gen_future.\n"
+            "Definition oo (tbl : list (akind * morder * morder)) (n : nat) : morder := "
+            "match nth_error tbl n with Some (_, o, _) => o | None => Relaxed end.")
+    for nm, prod, cons, what in (
+            ("get", "oo sites_set_value 0", "oo sites_get 0", "get() can return before the value set_value constructed is visible"),
+            ("wait", "oo sites_set_value 0", "oo sites_wait_slow 1", "a woken waiter can read the value before it is visible"),
+            ("on-finish", "oo sites_seal 0", "oo sites_on_finish 0", "a callback run inline by on_finish can miss the value")):
+        chk.wm_litmus("publication-" + nm, defs, "mp_xchg_safe (%s) (%s)" % (prod, cons),
+                      "mp_xchg (%s) (%s)" % (prod, cons), "mp_bad",
+                      "memory order of the publishing exchange / the observing load was weakened: " + what, machine="RA")
     model = chk.extract("fu", "Extract_fu.v", "fu_driver.ml", explorer=True)
     impl = chk.build_cpp("c08_future", [os.path.join(VERIF, "harness/conc/c08_future.cpp"),
                                         os.path.join(VERIF, "harness/shim/dsched.cpp")], ldflags=["-ldl"])
